@@ -1,6 +1,7 @@
 """C06 - port behaviour: driving-point impedance and Thevenin/Norton equivalents."""
 from __future__ import annotations
 import itertools, math, random, copy
+import numpy as np
 from ..gen import networks as G
 from ..gen import circuits as GC
 from .. import netdesc, circdesc
@@ -114,6 +115,15 @@ def ztol(ref_net, zref, a=None, b=None):
 def judge_port(ctx, prefix, net, ref_net, a, b, lib_fn, label='open_circuit_impedance'):
     """returns (status, zref, zlib)"""
     st, zref = tableau.port_impedance(ref_net, a, b)
+    if st == 'detached':
+        # no conducting path between the two nodes: the answer is 'infinite', whatever the reference node
+        z = call(lib_fn, a, b)
+        ctx.count('detached_ports_judged')
+        if raised(z):
+            ctx.violation(f'{prefix}/{label}/detached-port/raised/{z.key}', f'{label}({a!r},{b!r}) raised {z.text}; the nodes are not conductively connected, the impedance is infinite', {})
+        elif not np.isinf(abs(complex(z))):
+            ctx.violation(f'{prefix}/{label}/detached-port/finite', f'{label}({a!r},{b!r}) = {z!r}; the nodes are not conductively connected, the impedance is infinite', {})
+        return st, None, None
     if st != 'ok':
         ctx.count('set_aside_infinite_port')
         return st, None, None
@@ -261,6 +271,15 @@ def judge(case, ctx, prefix='C06'):
     for b in brs[:3]:
         rest = {'ref': ref_net['ref'], 'branches': [x for x in ref_net['branches'] if x['id'] != b['id']]}
         st, zref = tableau.port_impedance(rest, b['n1'], b['n2'])
+        if st == 'detached':
+            # the element is the only conducting link between its terminals (possibly the only branch at the reference node)
+            z = call(na.element_impedance, net, b['id'])
+            ctx.count('detached_elements_judged')
+            if raised(z):
+                ctx.violation(f'{prefix}/element_impedance/detached/raised/{z.key}', f'element_impedance({b["id"]!r}) raised {z.text}; without the element its terminals are not connected, the impedance it sees is infinite', {})
+            elif not np.isinf(abs(complex(z))):
+                ctx.violation(f'{prefix}/element_impedance/detached/finite', f'element_impedance({b["id"]!r}) = {z!r}; without the element its terminals are not connected', {})
+            continue
         if st != 'ok':
             ctx.count('set_aside_infinite_port')
             continue
@@ -268,8 +287,7 @@ def judge(case, ctx, prefix='C06'):
         if kappa > netsolve.KAPPA_MAX:
             continue
         if ref_net['ref'] not in [n for x in rest['branches'] for n in (x['n1'], x['n2'])]:
-            ctx.count('set_aside_element_carries_reference')
-            continue
+            ctx.count('elements_carrying_the_reference_node')
         z = call(na.element_impedance, net, b['id'])
         ctx.count('element_impedances_judged')
         if raised(z):
